@@ -37,9 +37,12 @@ AInit == [lines |-> <<>>, line |-> <<>>, buf |-> <<>>, cur |-> "none", crow |-> 
 \* the part of Step that runs when the token starts on a later row than the one being assembled
 NewRow(src, st, tok) ==
   IF tok.r1 > st.crow THEN
-    [st EXCEPT !.lines = st.lines \o [k \in 1..(tok.r1 - st.crow - 1) |-> <<>>]
+    \* the row being assembled is completed; rows without any token of their own (a lone continuation backslash) follow
+    \* it, as they are
+    [st EXCEPT !.lines = st.lines
                          \o << st.line \o Seg(st.cur, ARTrimNL(st.buf))
-                                       \o Seg("raw", ARTrimWS(Cut(Row(src, st.crow), st.ccol, Len(Row(src, st.crow))))) >>,
+                                       \o Seg("raw", ARTrimWS(Cut(Row(src, st.crow), st.ccol, Len(Row(src, st.crow))))) >>
+                         \o [k \in 1..(tok.r1 - st.crow - 1) |-> Seg("raw", ARTrimWS(Row(src, st.crow + k)))],
                !.line = <<>>, !.crow = tok.r1, !.ccol = 0, !.buf = <<>>]
   ELSE st
 
